@@ -278,6 +278,16 @@ func checkC01(tier string) {
 			strings.ReplaceAll(fmt.Sprintf("func use_ID(a, b *Heap, this, that, f *Emb) %s { return %s }", pl.body, pl.call), "ID", id)
 		cases = append(cases, &e1Case{ID: id, Zero: "(*int)(nil)", Key: "namepressure|" + pl.prefix, Extra: extra, Tags: map[string]string{"plugin": strings.ToLower(strings.TrimPrefix(pl.prefix, "derive")), "form": "name-pressure"}})
 	}
+	// chains of four, five and six nested calls: one more generate/reload round each
+	for n, chain := range []string{
+		"func use_ID(w []string) []string { return deriveSort_ID(deriveKeys_ID(deriveSet_ID(deriveFmap_ID(up_ID, w)))) }",
+		"func use_ID(w []string) []string { return deriveUnique_ID(deriveSort_ID(deriveKeys_ID(deriveSet_ID(deriveFmap_ID(up_ID, w))))) }",
+		"func use_ID(w []string) bool { return deriveContains_ID(deriveUnique_ID(deriveSort_ID(deriveKeys_ID(deriveSet_ID(deriveFmap_ID(up_ID, w))))), \"a\") }",
+	} {
+		id := idf()
+		cases = append(cases, &e1Case{ID: id, Zero: "(*int)(nil)", Isolated: true, Extra: strings.ReplaceAll("func up_ID(s string) string { return s }\n"+chain, "ID", id),
+			Tags: map[string]string{"plugin": "chain", "form": fmt.Sprintf("nested%d", n+4)}})
+	}
 	// a call in an in-package _test file next to a call that needs a second pass (and the
 	// reverse: the late call in the _test file), each pair alone in its package
 	for _, pl := range []struct{ plain, late string }{
@@ -325,7 +335,7 @@ func checkC01(tier string) {
 		}
 	}
 	res := runE1(cases, "C01", 60, nil, 1)
-	aggregateE1(rep, "C01", cases, res, bound+"; x {Equal, Compare, Hash, DeepCopy, Clone, GoString}; call-site forms {closure in a package-level var, function body, package-level var initialiser, in-package _test file, one-argument curried form, nested derive call typeable only after a first pass} over depth <= 1; list helpers {Sort, Keys, Min, Max, Contains, Unique, Set, Union, Intersect, Filter, TakeWhile, All, Any, Fmap, Join, Traverse, Mem, Sort(Keys())} over "+ebound+"; name-pressure packages; _test-file calls next to calls needing a second pass; late-typeable calls named like a minted helper (prefix_, prefix_1) x {Equal, Compare, Hash, GoString, DeepCopy} x both source orders; both same-named imports appear together in the batches",
+	aggregateE1(rep, "C01", cases, res, bound+"; x {Equal, Compare, Hash, DeepCopy, Clone, GoString}; call-site forms {closure in a package-level var, function body, package-level var initialiser, in-package _test file, one-argument curried form, nested derive call typeable only after a first pass} over depth <= 1; list helpers {Sort, Keys, Min, Max, Contains, Unique, Set, Union, Intersect, Filter, TakeWhile, All, Any, Fmap, Join, Traverse, Mem, Sort(Keys())} over "+ebound+"; name-pressure packages; chains of 4, 5 and 6 nested calls; _test-file calls next to calls needing a second pass; late-typeable calls named like a minted helper (prefix_, prefix_1) x {Equal, Compare, Hash, GoString, DeepCopy} x both source orders; both same-named imports appear together in the batches",
 		"state = one program: (type shape, plugin, call-site form), placed in a scenario package with up to 59 others; transition = one run of the real goderive on the package plus one run of the Go type checker (go build / go test -run ^$ for the _test form) on sources + derived.gen.go, including bisection and confirmation runs that isolate a failing program; the oracle is exit 0 and zero compiler errors (covers unresolved, redeclared and not-assignable calls, missing and unused imports); non-trivial = every program")
 	rep.Cov["distinct_nontrivial"] = len(cases) - len(res.Failures)
 	rep.Finish()
